@@ -26,12 +26,13 @@ func Load(opts *LoaderOptions) (*types.Project, error) {
 	fileNames := make([]string, len(opts.FileNames))
 	_ = copy(fileNames, opts.FileNames)
 
-	for idx, file := range fileNames {
+	for _, file := range fileNames {
 		prj, err := loadProjectFromFile(file, opts)
 		if err != nil {
 			return nil, err
 		}
-		err = loadExtendProject(prj, opts, file, idx)
+		// the base goes right before the file that extends it: at the end of what is loaded so far
+		err = loadExtendProject(prj, opts, file, len(opts.projects))
 		if err != nil {
 			if opts.IsInternalLoader {
 				return nil, err
